@@ -549,6 +549,40 @@ func TestEngineCrypto(t *testing.T) {
 			p.Oracle("C19-proto-amino-digest-differs", "protobuf sign doc digest %s, amino %s; doc=%s", dgP, dgA, am)
 		}
 		p.Count("real:ok")
+		if i%4 == 2 {
+			// a DIRECT-mode document with a fee payer: two signer infos.  The payer's sequence is part of what is signed; if such a
+			// document is rendered at all, two documents differing in that sequence only must not render alike
+			withPayer := func(paySeq uint64) []byte {
+				b := txCfg.NewTxBuilder()
+				require.NoError(t, b.SetMsgs(d.msgs...))
+				b.SetMemo(d.memo)
+				b.SetGasLimit(d.gas)
+				b.SetFeeAmount(feeCoins(d))
+				b.SetFeePayer(a2)
+				require.NoError(t, b.SetSignatures(
+					signing.SignatureV2{PubKey: pub1, Data: &signing.SingleSignatureData{SignMode: signing.SignMode_SIGN_MODE_DIRECT}, Sequence: d.seq},
+					signing.SignatureV2{PubKey: pub2, Data: &signing.SingleSignatureData{SignMode: signing.SignMode_SIGN_MODE_DIRECT}, Sequence: paySeq}))
+				bz, err := authsigning.GetSignBytesAdapter(c.s.CurrentContext, txCfg.SignModeHandler(), signing.SignMode_SIGN_MODE_DIRECT,
+					authsigning.SignerData{Address: a2.String(), ChainID: d.chain, AccountNumber: d.accNum + 1, Sequence: paySeq, PubKey: pub2}, b.GetTx())
+				if err != nil {
+					return nil
+				}
+				return bz
+			}
+			dA, dB := withPayer(7), withPayer(8)
+			if dA != nil && dB != nil {
+				gA, _ := digestOf(dA)
+				gB, _ := digestOf(dB)
+				p.Count("fee-payer-doc:rendered=" + fmt.Sprint(gA != "error"))
+				if gA != "error" && gA == gB {
+					p.Oracle("C19-eip712-collision", "two DIRECT-mode sign documents with a fee payer that differ only in the payer's sequence (7 / 8) have the same EIP-712 rendering %s", gA)
+				}
+				sigPay, _ := priv2.Sign(dA)
+				if gA != "error" && !bytes.Equal(dA, dB) && pub2.VerifySignature(dB, sigPay) {
+					p.Oracle("C19-signature-accepts-other-message", "the fee payer's signature for sequence 7 verifies for the document with sequence 8")
+				}
+			}
+		}
 		// ---- single-field perturbations must change the digest
 		perturb := []struct {
 			name string
